@@ -237,3 +237,94 @@ def _check_float_type(R, P, a, ims, loc):
             R.violation("C16.float", "%s|key|canonical" % a,
                         "key function %s does not canonicalise %s: total_cmp distinguishes -0.0/0.0 and NaN payloads, so numerically "
                         "equal values would be different keys" % (kn, "NaN" if not has_nan else "signed zero"), [kf.loc()])
+    run_keys(R)
+
+
+# ---- C16.key: the key handed to a hashed/ordered container is the value itself --------------------------------------------------------
+KEY_METHODS = re.compile(r"::(entry|insert|get|get_mut|contains_key|contains|remove|get_or_insert_with|get_key_value|remove_entry|replace|take)$")
+HOT = ("sqlgrep::model::Value", "sqlgrep::model::Float", "sqlgrep::execution::aggregate_execution::GroupKey")
+VALUE_SOURCE = re.compile(r"^sqlgrep::execution::(expression_execution::|column_providers::|.*ColumnProvider)|^sqlgrep::data_model::")
+LOSSY = {"IntToFloat", "FloatToInt"}
+
+
+def _lossy_casts(P, key, depth=2, _memo=None):
+    """lossy numeric casts (int<->float, narrowing int) in a local function and its local callees (bounded)"""
+    g = P.fns.get(key)
+    if g is None or g.derived:
+        return []
+    res = []
+    for i, s in g.stmts():
+        rv = s["rv"]
+        if rv["k"] != "cast":
+            continue
+        if rv["ck"] in LOSSY and rv["from"] != rv["to"]:
+            res.append("%s:%d %s->%s" % (g.file, s["line"], rv["from"], rv["to"]))
+    if depth > 0:
+        for c in g.calls:
+            for k2 in P.callee_keys(g, c):
+                if k2 != key and not VALUE_SOURCE.search(P.fns[k2].spath):
+                    res += _lossy_casts(P, k2, depth - 1)
+    return res
+
+
+def _key_chain(P, f, op, depth=8, seen=None):
+    """local (non value-source) functions and direct casts on the provenance chain of a key operand"""
+    seen = seen if seen is not None else set()
+    out = []
+    for o in F.origins(f, op, depth=12):
+        if o.kind == "cast" and ("f64" in o.extra or "f32" in o.extra):
+            out.append(("cast", o.extra, f))
+        if o.kind != "call":
+            continue
+        c = o.call
+        if id(c) in seen:
+            continue
+        seen.add(id(c))
+        keys = [k for k in P.callee_keys(f, c) if not P.fns[k].derived]
+        if any(VALUE_SOURCE.search(P.fns[k].spath) for k in keys):
+            continue
+        for k in keys:
+            out.append(("fn", k, c))
+        if keys and depth > 0:
+            for a in c.args:
+                out += _key_chain(P, f, a, depth - 1, seen)
+    return out
+
+
+def run_keys(R):
+    P = R.prog
+    R.rule("C16.key", "the key passed to a hashed/ordered container of values (join table, groups, DISTINCT sets) is the evaluated value "
+                      "itself: no function or cast on its provenance converts between INT and REAL (a lossy image makes unequal values one key)")
+    reach = P.reachable(rules_sites.roots(R, "EXEC"))
+    n = 0
+    for k in sorted(reach):
+        f = P.fns[k]
+        if f.derived:
+            continue
+        for c in f.calls:
+            sn = short(c.name)
+            ts = c.func.get("res_targs") or c.targs
+            if not (KEYED.search(sn) and KEY_METHODS.search(sn) and ts and any(h in ts[0] for h in HOT)):
+                continue
+            if len(c.args) < 2:
+                continue
+            n += 1
+            owner = f
+            while owner.kind == "Closure" and owner.parent_key in P.fns:
+                owner = P.fns[owner.parent_key]
+            key = "%s|%s" % (owner.spath.split("sqlgrep::")[-1], sn.split("::")[-1])
+            bad = []
+            for kind, what, where in _key_chain(P, f, c.args[1]):
+                if kind == "cast":
+                    bad.append("a %s cast in %s" % (what, f.path))
+                else:
+                    lc = _lossy_casts(P, what)
+                    if lc:
+                        bad.append("%s (contains %s)" % (P.fns[what].path, lc[0]))
+            if bad:
+                R.violation("C16.key", key, "the key of %s on %s is computed through %s: distinct values can collapse to one key, so "
+                                            "unequal values are joined/grouped/deduplicated together" % (sn.split("::")[-1], ts[0], bad[0]),
+                            [c.loc()])
+            else:
+                R.ok("C16.key", key, "key provenance holds no INT<->REAL conversion", c.loc())
+    R.floor("C16.key", 4)
